@@ -29,6 +29,10 @@ type XSpec struct {
 	AllowSingleObservation map[string]bool
 	// Batch: many small scenarios; whole scenarios (not subtrees) are the unit of parallel work.
 	Batch bool
+	// FreeSet, when set, names the scenario set of the separate free-running pass (see RacePass) run by the
+	// master after the exploration.
+	FreeSet    string
+	FreeRounds int
 }
 
 type xjob struct {
@@ -36,6 +40,21 @@ type xjob struct {
 	Scenario string `json:"sc"`
 	Prefix   []int  `json:"prefix"`
 	Deadline int64  `json:"deadline"`
+}
+
+func (x *XSpec) freePass() {
+	if x.FreeSet == "" {
+		return
+	}
+	runtime.GOMAXPROCS(runtime.NumCPU())
+	n := x.FreeRounds
+	if n == 0 {
+		n = 60
+		if x.Run.Thorough() {
+			n = 1000
+		}
+	}
+	RacePass(x.Run, x.FreeSet, n)
 }
 
 func (x *XSpec) find(name string) *Scenario {
@@ -76,8 +95,15 @@ func (x *XSpec) Main() {
 		var c struct {
 			Scenario string `json:"scenario"`
 			Choices  []int  `json:"choices"`
+			FreeRun  string `json:"free_run"`
 		}
 		run.LoadReplay(&c)
+		if c.FreeRun != "" {
+			// a finding of the free-running pass: the pass is run again (it samples schedules; the detector's
+			// reports do not depend much on timing, wrong results may)
+			x.freePass()
+			run.Finish()
+		}
 		sc := x.find(c.Scenario)
 		w := Run(sc, c.Choices, true)
 		for _, t := range w.Trace {
@@ -230,6 +256,7 @@ func (x *XSpec) Main() {
 	run.Set("transitions", totalPoints)
 	run.Set("traces_validated_against_impl", totalExec)
 	run.Set("explanation", "states = distinct (scenario, final observation vector) pairs; transitions = scheduling points executed; every trace is an execution of the real client code under the controlled scheduler")
+	x.freePass()
 	run.Finish()
 }
 
@@ -312,5 +339,6 @@ func (x *XSpec) batchMaster(deadline time.Time, workers int) {
 	run.Set("traces_validated_against_impl", st.Executions)
 	run.Set("max_points_per_execution", st.MaxPoints)
 	run.Set("explanation", "states = sum over histories of distinct final observation vectors; transitions = scheduling points executed; every trace is an execution of the real client code under the controlled scheduler")
+	x.freePass()
 	run.Finish()
 }
